@@ -1,5 +1,6 @@
 """Shared helpers for property modules: standard world set-up, client-side observation helpers,
 violation records, scenario validity."""
+import os as _os
 import socket as _rs
 
 from . import rfc6455 as R
@@ -52,6 +53,8 @@ class Result:
         self.threads = max(self.threads, w.k.max_threads)
         if w.k.abort_reason not in (None, "end"):
             self.info["abort"] = w.k.abort_reason
+        if _os.environ.get("VERIF_KEEP_LOG"):
+            self.info.setdefault("log", []).extend(w.k.log)
 
 
 def exc_name(e):
